@@ -425,6 +425,25 @@ class Interp:
     def p_reduce_sum(self, e, a):
         return self._reduce(e, a, self.o.add, self._zero(e))
 
+    def p_psum(self, e, *ins):
+        # a collective over a vmapped named axis reaches the IR as psum over POSITIONAL axes (the batch dimension): a plain sum over those axes
+        axes = tuple(e.params["axes"])
+        if not all(isinstance(a, int) for a in axes) or e.params.get("axis_index_groups") is not None:
+            raise Unsupported(f"psum over named axes {axes} (not under a vmap that binds them)")
+        outs = []
+        for a, ov in zip(ins, e.outvars):
+            keep = [d for d in range(a.ndim) if d not in axes]
+            at = np.transpose(a, keep + list(axes))
+            out = np.empty(tuple(a.shape[d] for d in keep), dtype=object)
+            for i in np.ndindex(*out.shape):
+                vals = list(np.asarray(at[i], dtype=object).reshape(-1))
+                r = vals[0]
+                for v in vals[1:]:
+                    r = self.o.add(r, v)
+                out[i] = r
+            outs.append(out)
+        return outs
+
     def p_reduce_prod(self, e, a):
         return self._reduce(e, a, self.o.mul, self.o.lift(1, e.outvars[0].aval.dtype))
 
